@@ -24,6 +24,8 @@ def main() -> int:
     if a.repo != "/repo":
         sys.path.insert(0, src)
         os.environ["PYTHONPATH"] = src + os.pathsep + os.environ.get("PYTHONPATH", "")
+        # runs against a scratch copy (self-tests, seeded changes) must not overwrite the evidence of the real tree
+        os.environ["VERIF_EVIDENCE_DIR"] = os.path.join(HERE, ".scratch", "evidence-other-repo")
     import physt  # noqa
     if not os.path.abspath(physt.__file__).startswith(os.path.abspath(src)):
         print(f"machinery error: physt imported from {physt.__file__}, expected under {src}", file=sys.stderr)
